@@ -3,6 +3,7 @@ mod c14;
 mod c15;
 mod c16;
 mod c01;
+mod c02;
 mod c03;
 mod c05;
 mod c06;
@@ -37,6 +38,7 @@ fn main() {
         "version" => println!("{}", pgp::VERSION),
         "c14" => c14::run(&cases, &out, &tier, seed),
         "c10" => c10::run(&cases, &out, &tier, seed),
+        "c02" => c02::run(&cases, &out, &tier, seed),
         "c05" => c05::run(&cases, &out, &tier, seed),
         "c08" => c08::run(&cases, &out, &tier, seed),
         "c15" => c15::run(&cases, &out, &tier, seed),
